@@ -364,3 +364,8 @@ py::object PyTreeIter::NextImpl() {"""),
 # attributes travel with their arm).  The first run raised two false alarms - N1 and D3 looked for
 # "the call is in the then-arm" - now both read the outcome of the un-negated condition.
 N.append({'id': 'cxx-if-else-inverted', 'generator': 'invert-ifs', 'file': None, 'edits': []})
+
+# `x == CONSTANT` written `CONSTANT == x` at 90 sites (kind tests, length tests, null tests).  The
+# first run raised alarms in K7, P2cxx, I2 and an analysis error in P1: each read the test off one
+# operand order.  The IR now puts the constant operand of a built-in ==/!= on the right.
+N.append({'id': 'cxx-comparison-operands-swapped', 'generator': 'swap-eq', 'file': None, 'edits': []})
